@@ -235,6 +235,10 @@ def r5_collection(chk: Check):
         loops = [n for n in g.live if n.kind == "for" and src(n.ast.iter) == attr]
         ok = len(loops) == 1 and g.must_pass(g.entry, g.exit, loops) and any(src(c.func).endswith(".__xpm__.updatedependencies") for b in loops[0].ast.body for c in walk_local(b) if isinstance(c, ast.Call))
         chk.require(ok, chk.fkey(m, f"visits {attr}"), f"dependencies reachable through `{attr}` are not collected on every path (the loop is missing or can be skipped by an early return)", loc)
+    # task de-duplication is by identity (structural equality ignores pre / init tasks, which do change the job)
+    dd = [n for n in g.live if n.kind == "test" and "taskids" in src(n.ast)]
+    chk.require(bool(dd) and all(src(n.ast) == "id(self.task) in taskids" for n in dd), chk.fkey(m, "tasks de-duplicated by identity"),
+                f"already-added upstream tasks are recognised by {[src(n.ast) for n in dd]}: de-duplication must be by identity (id(task)); two equal-looking tasks that differ by init or pre-tasks are different jobs", loc)
     adds = g.call_nodes(lambda c: src(c) == "dependencies.add(self.task.__xpm__.dependency())")
     vals = [n for n in g.live if n.kind == "for" and "xpmvalues()" in src(n.ast.iter)]
     chk.require(len(adds) == 1 and len(vals) == 1, chk.fkey(m, "task or values"), "the producing task or else every argument value must be searched", loc)
@@ -377,11 +381,18 @@ def _r6_check_guard(chk: Check):
                 chk.violation(chk.fkey(ff, "calls dependencychanged"), f"`{ff.qual}` calls dependencychanged directly, bypassing the changed-status guard of Dependency.check", chk.loc(ff.module, call))
 
 
+def r7_done_is_truthful(chk: Check):
+    from . import c06
+
+    c06.r2_truthful(chk)
+
+
 RULES = [
     ("R1", "launch gating: aio_start only under state == READY after awaiting the ready event; aio_run only from aio_start, after every dependency lock was taken, inside the job lock; who-may-call tables", r1_launch_gating),
     ("R2", "the ready event is set / READY is stored only under unsatisfied == 0, a failed dependency, or no dependencies", r2_who_sets_ready),
     ("R3", "JobDependency.status: OK iff upstream DONE, FAIL iff upstream ERROR, else WAIT (decision table)", r3_status_mapping),
     ("R4", "dependencies are collected and added before the job is handed to the scheduler; the counter and the target are set before the first check", r4_registration_order),
     ("R5", "dependency collection reaches list elements, dict values, nested configurations, pre-tasks, init tasks and producing tasks on every path", r5_collection),
+    ("R7", "an upstream job is DONE only if its process exited with code 0 or its success marker exists (= C06.R2): a dependency is never satisfied by an unknown exit code", r7_done_is_truthful),
     ("R6", "unsatisfied moves by [old is OK] - [new is OK] for all 9 status pairs; check() notifies only on a status change and records it; nobody else calls dependencychanged or writes the counter", r6_counter_arithmetic),
 ]
